@@ -37,13 +37,13 @@ RECURSIVE SkipItems(_, _, _)
 SkipItems(b, count, off) ==         \* count length-prefixed items starting at offset off (0-based)
   IF count = 0 THEN off
   ELSE LET r == ReadLen(Drop(b, off)) IN
-       IF ~r.ok \/ off + r.n + r.v > Len(b) THEN -1
+       IF ~r.ok \/ r.v > Len(b) - off - r.n THEN -1          \* (not off + n + v > Len: v can be 2^31 - 1)
        ELSE SkipItems(b, count - 1, off + r.n + r.v)
 SkipLen(b, wt) ==
   CASE wt = WTVarInt -> (LET r == ReadVarUint(b) IN IF r.n > 0 THEN r.n ELSE -1)
     [] wt = WT64     -> IF Len(b) >= 8 THEN 8 ELSE -1
     [] wt = WT32     -> IF Len(b) >= 4 THEN 4 ELSE -1
-    [] wt = WTLength -> (LET r == ReadLen(b) IN IF r.ok /\ r.n + r.v <= Len(b) THEN r.n + r.v ELSE -1)
+    [] wt = WTLength -> (LET r == ReadLen(b) IN IF r.ok /\ r.v <= Len(b) - r.n THEN r.n + r.v ELSE -1)
     [] wt = WTSlice  -> (LET r == ReadLen(b) IN IF r.ok /\ r.v <= Len(b) THEN SkipItems(b, r.v, r.n) ELSE -1)
     [] OTHER         -> -1
 
@@ -75,7 +75,7 @@ RECURSIVE CountedItems(_, _)
 CountedItems(b, count) ==
   IF count = 0 THEN [ok |-> TRUE, x |-> <<>>, rest |-> b]
   ELSE LET r == ReadLen(b) IN
-       IF ~r.ok \/ r.n + r.v > Len(b) THEN [ok |-> FALSE, x |-> <<>>, rest |-> <<>>]
+       IF ~r.ok \/ r.v > Len(b) - r.n THEN [ok |-> FALSE, x |-> <<>>, rest |-> <<>>]
        ELSE LET t == CountedItems(Drop(b, r.n + r.v), count - 1) IN
             IF ~t.ok THEN t ELSE [ok |-> TRUE, x |-> <<Slice(b, r.n, r.v)>> \o t.x, rest |-> t.rest]
 
